@@ -100,6 +100,59 @@ struct Classify {
     }
 };
 
+// One structure-aware case, shared by the libFuzzer target fuzz_struct (choices = the fuzzer's bytes) and by the
+// rapidcheck-driven twin c01 (choices generated and shrunk by rapidcheck): returns "" or the violated invariant.
+inline std::string structCase(Src &s, const World &W, Inst **keep = nullptr, std::string *streamOut = nullptr) {
+    size_t bufSel = s.range(0, 3), bufRaw = s.range(2, 48);
+    int queueLen = (int) s.range(1, 4);
+    size_t heapLen = s.range(1, 64);
+    int nm = (int) s.range(1, 4);
+    std::string stream;
+    MsgOpt mo;
+    for (int m = 0; m < nm; m++) {
+        mo.terminate = !s.prob(1, 8);
+        std::string msg = genMessage(s, W, mo);
+        if (s.prob(1, 3)) mutateBytes(s, msg);
+        stream += msg;
+    }
+    // half of the inputs get a buffer that holds the whole stream, the others a small one (overrun / boundary paths)
+    size_t bufLen = bufSel < 2 ? stream.size() + 1 + bufSel : bufSel == 2 ? bufRaw : std::min((size_t) 300, stream.size() / 2 + 2);
+    if (bufLen < 2) bufLen = 2;
+    static std::unique_ptr<Inst> held;
+    held.reset(new Inst(fuzzCfg(W, bufLen, queueLen, heapLen)));
+    Inst &I = *held;
+    I.cfg.traceValues = false;
+    size_t pos = 0;
+    while (pos < stream.size()) {
+        size_t room = bufLen - 1 - I.ctx.buffer.position;
+        size_t len = s.prob(1, 40) ? room + s.range(1, 4) : s.range(1, std::max((size_t) 1, std::min(room, (size_t) 24)));
+        if (s.prob(1, 50)) { I.input("", 0); Classify::get().flushCalls++; }
+        if (len > stream.size() - pos) len = stream.size() - pos;
+        I.input(stream.data() + pos, (int) len);
+        pos += len;
+        I.trace.clear();
+        if (!I.invariant.empty()) return I.invariant;
+    }
+    I.input("", 0);
+    if (!I.invariant.empty()) return I.invariant;
+    if (keep) *keep = &I;
+    if (streamOut) *streamOut = stream;
+    if (s.prob(1, 4) && !stream.empty()) {
+        // a complete NUL-terminated line handed straight to the line parser
+        Inst D(fuzzCfg(W, 16, queueLen, heapLen));
+        D.cfg.traceValues = false;
+        XBuf line(stream.size() + 1);
+        memcpy(line.p, stream.data(), stream.size());
+        line.p[stream.size()] = 0;
+        SCPI_Parse(&D.ctx, line.p, (int) strlen(line.p));
+        D.checkInvariants("SCPI_Parse");
+        if (!D.invariant.empty()) return D.invariant;
+        if (!line.ok()) return "SCPI_Parse wrote past the line";
+        D.drainErrors();
+    }
+    return "";
+}
+
 [[noreturn]] inline void fuzzFail(const std::string &why) {
     fprintf(stderr, "SEMANTIC-INVARIANT violated: %s\n", why.c_str());
     fflush(stderr);
